@@ -73,10 +73,17 @@ def make_crystal(rng, kind):
                   "hex": lambda: UnitCell.hexagonal(L(9, 13), L(7, 12)), "cubic": lambda: UnitCell.cubic(L(10, 14))}[uc]()
         o = np.array([rng.uniform(0.1, 0.9) for _ in range(3)]) @ np.asarray(uc.direct)
         cart = water(o, rot(rng))
-        c = Crystal(uc, sg, AsymmetricUnit([Element[8], Element[1], Element[1]], uc.to_fractional(cart)), titl="w")
+        els = [Element[8], Element[1], Element[1]]
+        frac = uc.to_fractional(cart)
+        # sometimes an extra atom ON a special position (inversion centre at the origin / the three-fold axis through it)
+        if rng.random() < 0.4 and (kind == "trigonal" or n in (2, 14, 62, 143)):
+            z0 = rng.choice([0.0, rng.uniform(0.05, 0.95)]) if (kind == "trigonal" or n == 143) else 0.0
+            els = els + [Element[18]]
+            frac = np.vstack([frac, [[0.0, 0.0, z0]]])
+        c = Crystal(uc, sg, AsymmetricUnit(els, frac), titl="w")
         try:
             mols = c.unit_cell_molecules()
-            if len(mols) == len(sg.symmetry_operations) and all(len(m) == 3 for m in mols):
+            if sum(1 for m in mols if len(m) == 3) == len(sg.symmetry_operations) and all(len(m) in (1, 3) for m in mols):
                 return c
         except Exception:  # noqa
             pass
@@ -191,7 +198,24 @@ def correspond(ctx):
 def judge(seed):
     import random
     rng = random.Random(seed)
-    kind = rng.choice(["super", "super", "trigonal", "oriented"])
+    kind = rng.choice(["super", "super", "trigonal", "oriented", "oriented-back"])
+    if kind == "oriented-back":
+        # rhombohedral setting first, molecules looked at THERE, then back to hexagonal axes and expanded
+        c = make_crystal(rng, "trigonal")
+        if c is None:
+            return kind, None, False
+        from copy import deepcopy
+        ref = deepcopy(c)
+        c.choose_trigonal_lattice("R")
+        c.unit_cell_molecules()
+        c.symmetry_unique_molecules()
+        c.choose_trigonal_lattice("H")
+        size = tuple(rng.randint(1, 2) for _ in range(3))
+        which = rng.choice(["as_P1", "as_P1_supercell", "to_translational_symmetry"])
+        r = check_supercell(c, size, which)
+        if r is None:
+            r = same_crystal(ref, c)
+        return kind + ":" + which, r, True
     if kind == "trigonal":
         c = make_crystal(rng, "trigonal")
         return kind, (check_trigonal(c) if c is not None else None), c is not None
